@@ -133,6 +133,38 @@ def mutate(rnd, toks, fault):
 
 NOISE_ALPHABET = ["a", ";", "{", "}", '"', "'", "\\", "/", "*", "\t", "\n", "\r", "é"]
 
+# ------------------------------------------------------------------ token-level exhaustive sequences
+# The character-level sweeps are too short to build e.g.  a "b" "+" "c";  (12 characters), so whole TOKENS are
+# enumerated as well: quoted spellings of + ; { }, the empty string, an undefined escape, the keyword pattern.
+TOKEN_ALPHABET = ["a", "pattern", "+", ";", "{", "}", '"b"', "'b'", '"+"', "'+'", '";"', '"{"', '"}"', '""', '"a\\d"']
+UNQUOTED_TOKENS = {"a", "pattern", "+"}
+
+
+def render_tokens(seq, rnd=None):
+    """minimal separators (a blank only between two unquoted tokens); with rnd: random blanks / comments instead"""
+    out = []
+    prev = None
+    for t in seq:
+        if prev is not None:
+            need = prev in UNQUOTED_TOKENS and t in UNQUOTED_TOKENS
+            if rnd is None:
+                out.append(" " if need else "")
+            else:
+                g = gap(rnd, need)
+                out.append(" " + g if (prev in UNQUOTED_TOKENS and g.startswith("/")) else g)
+        out.append(t)
+        prev = t
+    return "".join(out)
+
+
+CORE_TOKENS = ["a", "pattern", "+", ";", "{", "}", '"b"', "'b'", '"+"', "'+'", '""']
+
+
+def token_sequences(maxlen, minlen=0, alphabet=None):
+    for n in range(minlen, maxlen + 1):
+        for seq in itertools.product(alphabet or TOKEN_ALPHABET, repeat=n):
+            yield seq
+
 
 def gen(tier, seed):
     rnd = random.Random(seed)
@@ -147,6 +179,11 @@ def gen(tier, seed):
     for n in range(maxlen + 1):
         for tup in itertools.product(NOISE_ALPHABET, repeat=n):
             add("exhaustive", "".join(tup))
+    # every short TOKEN sequence (quoted + ; { }, empty string, undefined escape, pattern), minimal and noisy layout
+    tl = 3 if tier == "quick" else 4
+    for seq in token_sequences(tl, 1):
+        add("tokens", render_tokens(seq))
+        add("tokens-noisy", render_tokens(seq, rnd))
     # well-formed texts under layout noise
     nwf = 6000 if tier == "quick" else 120000
     for _ in range(nwf):
@@ -169,6 +206,322 @@ def gen(tier, seed):
               "a { b; ", "a b }", "a b c;", "a 'b' 'c';", "a 'b' + ;", "a 'b' +", "a + + ;", "a\r b;\r c d;"]:
         add("corpus", t)
     return cases, kinds
+
+
+# ====================================================================== family 2: semantic errors
+# Third sentence of the property: every file:line:col in an error from building or resolving a module is the start
+# of a statement of that file, and it is the RIGHT statement.  Decided by an oracle on the implementation alone:
+# single-semantic-fault module sets are written as YANG text with the faulty statement marked (@@), layout noise is
+# put in front of it, Modules.Parse / Process run on them (harness `process`), and every position found anywhere in
+# an error string is looked up in the statement list of that file (harness `parse`).
+import json
+import tempfile
+
+
+def MOD(body, name="a", extra=""):
+    return 'module %s { namespace "urn:%s"; prefix %s; %s ## %s }' % (name, name, name, extra, body)
+
+
+LIB_B = ("b.yang", 'module b { namespace "urn:b"; prefix b; typedef bt { type int8 { range "1..10"; } } '
+                   'grouping bg { leaf x { type string; } } }')
+IMP_B = "import b { prefix b; }"
+
+# (label, class of the injected fault, nestable, files).  @@ = start of the statement the error must name;
+# ## = a place where whole noise statements may be put.  class "other": the property does not single out a statement.
+SEM_CASES = [
+    # unknown substatement, at various depths and in various parents
+    ("unk-container", "unknown-field", True, [("a.yang", MOD("container c { ## @@bogus x; }"))]),
+    ("unk-module", "unknown-field", False, [("a.yang", MOD("@@bogus x;"))]),
+    ("unk-leaf-in-list", "unknown-field", True, [("a.yang", MOD("list l { key k; ## leaf k { type string; @@bogus 1; } }"))]),
+    ("unk-type", "unknown-field", True, [("a.yang", MOD("leaf l { type string { @@bogus 1; } }"))]),
+    ("unk-rpc-input", "unknown-field", False, [("a.yang", MOD("rpc r { input { ## @@bogus 1; } }"))]),
+    ("unk-grouping", "unknown-field", True, [("a.yang", MOD("grouping g { ## @@bogus 1; }"))]),
+    ("unk-typedef", "unknown-field", True, [("a.yang", MOD("typedef t { type string; @@bogus 1; }"))]),
+    ("unk-augment", "unknown-field", False, [("a.yang", MOD('container c { } augment "/c" { ## @@bogus 1; }'))]),
+    ("unk-import", "unknown-field", False, [("a.yang", MOD("", extra="import b { prefix b; @@bogus 1; }")), LIB_B]),
+    ("unk-enum", "unknown-field", True, [("a.yang", MOD("leaf l { type enumeration { enum a { @@bogus 1; } } }"))]),
+    ("unk-statement", "unknown-statement", False, [("a.yang", "@@foo bar;")]),
+    ("top-not-a-module", "other", False, [("a.yang", "@@leaf l { type string; }")]),
+    ("unk-kind-field-module", "unknown-field", False, [("a.yang", MOD("@@belongs-to x { prefix x; }"))]),
+    ("unk-kind-field-submodule", "unknown-field", False, [("s.yang", 'submodule s { belongs-to a { prefix a; } @@namespace "urn:s"; }')]),
+    # a mandatory substatement is missing: the statement that lacks it
+    ("req-leaf-type", "missing-required", True, [("a.yang", MOD('container c { ## @@leaf l { description "x"; } }'))]),
+    ("req-leaflist-type", "missing-required", True, [("a.yang", MOD("## @@leaf-list l { units x; }"))]),
+    ("req-typedef-type", "missing-required", True, [("a.yang", MOD('## @@typedef t { description "x"; }'))]),
+    ("req-import-prefix", "missing-required", False, [("a.yang", MOD("", extra="@@import b { }")), LIB_B]),
+    ("req-module-namespace", "missing-required", False, [("a.yang", "@@module a { prefix a; }")]),
+    ("req-module-prefix", "missing-required", False, [("a.yang", '@@module a { namespace "urn:a"; }')]),
+    ("req-submodule-belongs-to", "missing-required", False, [("s.yang", "@@submodule s { }")]),
+    ("req-belongs-to-prefix", "missing-required", False, [("s.yang", "submodule s { @@belongs-to a { } }")]),
+    ("req-deviation-deviate", "missing-required", False, [("a.yang", MOD('container c { } ## @@deviation "/c" { }'))]),
+    # the type statement whose name is bad
+    ("type-unknown", "type", True, [("a.yang", MOD("## leaf l { @@type nosuch; }"))]),
+    ("type-unknown-own-prefix", "type", True, [("a.yang", MOD("leaf l { @@type a:nosuch; }"))]),
+    ("type-unknown-in-import", "type", True, [("a.yang", MOD("leaf l { @@type b:nosuch; }", extra=IMP_B)), LIB_B]),
+    ("type-unknown-prefix", "type", True, [("a.yang", MOD("leaf l { @@type zz:t; }"))]),
+    ("type-unknown-in-typedef", "type", True, [("a.yang", MOD("typedef t { @@type nosuch; } ## leaf l { type t; }"))]),
+    ("type-unknown-in-unused-typedef", "type", True, [("a.yang", MOD("typedef t { @@type nosuch; }"))]),
+    ("type-unknown-in-union", "type", True, [("a.yang", MOD("leaf l { type union { type string; @@type nosuch; } }"))]),
+    ("type-unknown-in-grouping", "type", False, [("a.yang", MOD("grouping g { ## leaf l { @@type nosuch; } } container c { uses g; }"))]),
+    ("type-unknown-leaflist", "type", True, [("a.yang", MOD("leaf-list l { @@type nosuch; }"))]),
+    ("type-unknown-in-other-file", "type", False, [("a.yang", MOD("container c { uses b2:g; }", extra="import b2 { prefix b2; }")),
+                                                  ("b2.yang", MOD("grouping g { ## leaf l { @@type nosuch; } }", "b2"))]),
+    ("type-deviation", "type", False, [("a.yang", MOD('leaf l { type string; } ## deviation "/a:l" { deviate replace { @@type nosuch; } }'))]),
+    ("typedef-self", "typedef", True, [("a.yang", MOD("## @@typedef t { type t; } leaf l { type t; }"))]),
+    ("typedef-cycle", "typedef", True, [("a.yang", MOD("typedef t { type u; } ## typedef u { type t; } leaf l { type t; }"))]),
+    ("fraction-digits-19", "type", True, [("a.yang", MOD("leaf l { @@type decimal64 { fraction-digits 19; } }"))]),
+    ("fraction-digits-0", "type", True, [("a.yang", MOD("leaf l { @@type decimal64 { fraction-digits 0; } }"))]),
+    ("fraction-digits-missing", "type", True, [("a.yang", MOD("leaf l { @@type decimal64; }"))]),
+    ("fraction-digits-on-string", "type", True, [("a.yang", MOD("leaf l { @@type string { fraction-digits 2; } }"))]),
+    ("fraction-digits-override", "type", True, [("a.yang", MOD("typedef t { type decimal64 { fraction-digits 2; } } ## leaf l { @@type t { fraction-digits 3; } }"))]),
+    ("identityref-no-base", "type", True, [("a.yang", MOD("leaf l { @@type identityref; }"))]),
+    # uses of an unknown grouping
+    ("uses-unknown", "uses", True, [("a.yang", MOD("container c { ## @@uses nosuch; }"))]),
+    ("uses-unknown-top", "uses", False, [("a.yang", MOD("@@uses nosuch;"))]),
+    ("uses-unknown-in-grouping", "uses", False, [("a.yang", MOD("grouping g { container d { ## @@uses nosuch; } } container c { uses g; }"))]),
+    ("uses-unknown-in-augment", "uses", False, [("a.yang", MOD('container c { } augment "/c" { ## @@uses nosuch; }'))]),
+    ("uses-unknown-in-rpc-input", "uses", False, [("a.yang", MOD("rpc r { input { ## @@uses nosuch; } }"))]),
+    ("uses-unknown-in-list", "uses", True, [("a.yang", MOD("list l { key k; leaf k { type string; } @@uses nosuch; }"))]),
+    ("uses-unknown-imported", "uses", True, [("a.yang", MOD("container c { @@uses b:nosuch; }", extra=IMP_B)), LIB_B]),
+    ("uses-unknown-in-choice-case", "uses", True, [("a.yang", MOD("choice ch { case k { ## @@uses nosuch; } }"))]),
+    ("grouping-self", "grouping", False, [("a.yang", MOD("## @@grouping g { uses g; } container c { uses g; }"))]),
+    ("grouping-cycle", "grouping", False, [("a.yang", MOD("grouping g { uses h; } ## grouping h { uses g; } container c { uses g; }"))]),
+    # bad range / length
+    ("range-syntax", "range", True, [("a.yang", MOD('leaf l { type int8 { @@range "1..x"; } }'))]),
+    ("range-order", "range", True, [("a.yang", MOD('## leaf l { type int8 { @@range "5..1"; } }'))]),
+    ("range-not-within-parent", "range", True, [("a.yang", MOD('typedef t { type int8 { range "1..10"; } } ## leaf l { type t { @@range "0..20"; } }'))]),
+    ("range-not-within-builtin", "range", True, [("a.yang", MOD('leaf l { type uint8 { @@range "0..256"; } }'))]),
+    ("range-on-typedef", "range", True, [("a.yang", MOD('typedef t { type int32 { @@range "5..1"; } } ## leaf l { type t; }'))]),
+    ("range-second-part", "range", True, [("a.yang", MOD('leaf l { type int8 { @@range "1..5 | 7..x"; } }'))]),
+    ("range-imported-parent", "range", True, [("a.yang", MOD('leaf l { type b:bt { @@range "0..5"; } }', extra=IMP_B)), LIB_B]),
+    ("range-decimal", "range", True, [("a.yang", MOD('leaf l { type decimal64 { fraction-digits 2; @@range "1.234..2"; } }'))]),
+    ("length-order", "length", True, [("a.yang", MOD('leaf l { type string { @@length "5..1"; } }'))]),
+    ("length-negative", "length", True, [("a.yang", MOD('## leaf l { type string { @@length "-1..2"; } }'))]),
+    ("length-syntax", "length", True, [("a.yang", MOD('leaf l { type string { @@length "a"; } }'))]),
+    ("length-not-within-parent", "length", True, [("a.yang", MOD('typedef t { type string { length "1..4"; } } ## leaf l { type t { @@length "2..9"; } }'))]),
+    ("length-on-typedef", "length", True, [("a.yang", MOD('typedef t { type binary { @@length "9..1"; } } leaf l { type t; }'))]),
+    # enum / bit
+    ("enum-value-conflict", "enum", True, [("a.yang", MOD("leaf l { type enumeration { enum a { value 1; } @@enum b { value 1; } } }"))]),
+    ("enum-duplicate-name", "enum", True, [("a.yang", MOD("## leaf l { type enumeration { enum a; @@enum a; } }"))]),
+    ("enum-value-syntax", "enum", True, [("a.yang", MOD("leaf l { type enumeration { enum z; @@enum a { value x; } } }"))]),
+    ("enum-value-too-large", "enum", True, [("a.yang", MOD("leaf l { type enumeration { @@enum a { value 2147483648; } } }"))]),
+    ("enum-value-too-small", "enum", True, [("a.yang", MOD("leaf l { type enumeration { @@enum a { value -2147483649; } } }"))]),
+    ("enum-after-max", "enum", True, [("a.yang", MOD("leaf l { type enumeration { enum a { value 2147483647; } @@enum b; } }"))]),
+    ("enum-on-typedef", "enum", True, [("a.yang", MOD("typedef t { type enumeration { enum a; @@enum a; } } ## leaf l { type t; }"))]),
+    ("bit-position-negative", "enum", True, [("a.yang", MOD("leaf l { type bits { @@bit a { position -1; } } }"))]),
+    ("bit-duplicate-name", "enum", True, [("a.yang", MOD("leaf l { type bits { bit a; @@bit a; } }"))]),
+    ("bit-position-syntax", "enum", True, [("a.yang", MOD("leaf l { type bits { @@bit a { position x; } } }"))]),
+    # augment target missing
+    ("augment-missing", "augment", False, [("a.yang", MOD('## @@augment "/nosuch" { leaf x { type string; } }'))]),
+    ("augment-missing-deep", "augment", False, [("a.yang", MOD('container c { } ## @@augment "/c/d/e" { leaf x { type string; } }'))]),
+    ("augment-other-module", "augment", False, [("a.yang", MOD('@@augment "/b:nosuch" { leaf x { type string; } }', extra=IMP_B)), LIB_B]),
+    # not singled out by the property: any position must still be a statement start of a loaded file
+    ("dup-leaves", "other", True, [("a.yang", MOD("container c { leaf x { type string; } ## @@leaf x { type int8; } }"))]),
+    ("dup-leaf-vs-uses", "other", True, [("a.yang", MOD("grouping g { leaf x { type string; } } container c { @@leaf x { type int8; } uses g; }"))]),
+    ("dup-module", "other", False, [("a.yang", MOD("")), ("a2.yang", "@@" + MOD(""))]),
+    ("config-value", "other", True, [("a.yang", MOD("leaf l { type string; @@config maybe; }"))]),
+    ("mandatory-value", "other", True, [("a.yang", MOD("leaf l { type string; @@mandatory maybe; }"))]),
+    ("max-elements-zero", "other", True, [("a.yang", MOD("leaf-list l { type string; @@max-elements 0; }"))]),
+    ("max-elements-syntax", "other", True, [("a.yang", MOD("list l { key k; leaf k { type string; } @@max-elements x; }"))]),
+    ("min-elements-negative", "other", True, [("a.yang", MOD("leaf-list l { type string; @@min-elements -1; }"))]),
+    ("ordered-by-value", "other", True, [("a.yang", MOD("leaf-list l { type string; @@ordered-by who; }"))]),
+    ("identity-base-unknown", "other", False, [("a.yang", MOD("## @@identity i { base nosuch; }"))]),
+    ("identity-self", "other", False, [("a.yang", MOD("## @@identity i { base i; }"))]),
+    ("include-missing", "other", False, [("a.yang", MOD("", extra="@@include nosuch;"))]),
+    ("import-missing", "other", False, [("a.yang", MOD("", extra="@@import nosuch { prefix n; }"))]),
+]
+
+SEM_GAPS = [" ", "\t", "\t\t ", "\n", "\r\n", "\n\t", "\r\n    ", " // é ü\n", "/* c */ ", "/* é\n\t日本 */\t", "//\r\n\t", "\n\n\n", " /**/ /* x */ ",
+            "\t/* a\r\n b */\r\n\t"]
+EXACT_CLASSES = {"unknown-field", "unknown-statement", "missing-required", "type", "typedef", "uses", "grouping", "range", "length",
+                 "enum", "augment"}
+CLASS_KEYWORDS = {"type": {"type"}, "typedef": {"typedef"}, "uses": {"uses"}, "grouping": {"grouping"}, "range": {"range"},
+                  "length": {"length"}, "enum": {"enum", "bit"}, "augment": {"augment"}}
+SEM_POS = re.compile(r"([A-Za-z0-9_.\-]+\.yang):(-?\d+):(-?\d+)")
+KIND_FIELDS = {"belongs-to", "namespace", "prefix"}    # yang.go `required=module` / `required=submodule`
+
+
+def classify(msg):
+    """class of an error message by its fixed wording -> (class, detail)"""
+    m = re.search(r"unknown (\S+) field: (\S+)", msg)
+    if m:
+        return "unknown-field", (m.group(1), m.group(2))
+    m = re.search(r"unknown statement: (\S+)", msg)
+    if m:
+        return "unknown-statement", m.group(1)
+    m = re.search(r"missing required (\S+) field: (\S+)", msg)
+    if m:
+        return "missing-required", (m.group(1), m.group(2))
+    if re.search(r"typedef \S+ is based on itself", msg):
+        return "typedef", None
+    if re.search(r"unknown type|unknown prefix: \S+ for type|fraction-digits|out of range \[1\.\.18\]|is required in the range of \[1\.\.18\]|"
+                 r"identityref must specify a base|no YangType defined", msg):
+        return "type", None
+    if "unknown group:" in msg:
+        return "uses", None
+    if re.search(r"grouping \S+ refers to itself", msg):
+        return "grouping", None
+    if "bad range:" in msg:
+        return "range", None
+    if "bad length:" in msg or "negative length:" in msg:
+        return "length", None
+    if re.search(r"conflict on value|already assigned|too large \(maximum is|too small \(minimum is|must specify a value since previous|"
+                 r"\.yang:-?\d+:-?\d+: strconv\.", msg):
+        return "enum", None
+    if re.search(r"augment \S+ not found|target cannot have child nodes", msg):
+        return "augment", None
+    return "other", None
+
+
+def linecol(text, off):
+    pre = text[:off]
+    return pre.count("\n") + 1, len(pre) - (pre.rfind("\n") + 1) + 1
+
+
+def parse_forest(obs):
+    """harness `parse` observation -> list of (keyword, line, col) of every statement, any depth"""
+    out = []
+    if not obs.startswith("ok "):
+        return None
+    for m in re.finditer(r"\(([0-9a-f\-]+),[01],[0-9a-f\-]+,(-?\d+),(-?\d+);", obs):
+        kw = "" if m.group(1) == "-" else bytes.fromhex(m.group(1)).decode("utf-8", "replace")
+        out.append((kw, int(m.group(2)), int(m.group(3))))
+    return out
+
+
+def build_sem_case(rnd, label, cls, nestable, files, counter):
+    """-> (files with noise, marker (file, line, col) or None)"""
+    out, marker = [], None
+    depth = rnd.choice([0, 0, 1, 2, 3]) if nestable else 0
+    for name, text in files:
+        # noise statements
+        def noise_stmt(_m):
+            counter[0] += 1
+            r = rnd.random()
+            if r < 0.35:
+                return ""
+            if r < 0.6:
+                return rnd.choice(SEM_GAPS)
+            return 'leaf zz%d { type string; description "é %d\n\t two\r\n   three"; }%s' % (counter[0], counter[0], rnd.choice(SEM_GAPS))
+        text = re.sub(r"##", noise_stmt, text)
+        if depth and "@@" in text and nestable:
+            # wrap the body of module a (everything after the header) into nested containers
+            i = text.index("prefix a;") + len("prefix a;") if "prefix a;" in text else -1
+            if i > 0 and text.rstrip().endswith("}"):
+                j = text.rstrip().rindex("}")
+                hdr, body, tail = text[:i], text[i:j], text[j:]
+                # imports must stay in the header
+                mi = re.match(r"(\s*(?:import \S+ \{[^}]*\}\s*)*)", body)
+                imp, body = body[:mi.end()], body[mi.end():]
+                for d in range(depth):
+                    body = " container n%d {%s%s}" % (d, rnd.choice(SEM_GAPS), body)
+                text = hdr + imp + body + tail
+        if "@@" in text:
+            off = text.index("@@")
+            gapt = "".join(rnd.choice(SEM_GAPS) for _ in range(rnd.choice([0, 1, 1, 2, 3])))
+            text = text[:off] + gapt + text[off + 2:]
+            ln, cl = linecol(text, off + len(gapt))
+            marker = (name, ln, cl)
+        out.append((name, text))
+    return out, marker
+
+
+def sem_case_line(files):
+    ops = ",".join("L%d" % i for i in range(len(files))) + ",P"
+    return "process - %s %d %s" % (ops, len(files), " ".join("%s %s" % (hx(n), hx(t)) for n, t in files))
+
+
+def run_semantic(res, tier, rnd):
+    n_var = 6 if tier == "quick" else 80
+    built, counter = [], [0]
+    for label, cls, nestable, files in SEM_CASES:
+        for v in range(n_var):
+            fs, marker = build_sem_case(rnd, label, cls, nestable and v > 0, files, counter)
+            built.append((label, cls, fs, marker))
+    plines = [sem_case_line(fs) for _, _, fs, _ in built]
+    tmp = tempfile.mkdtemp(prefix="c16cwd")
+    pout = lib.run_go(plines, cwd=tmp)
+    # statement lists of every file text
+    texts = sorted({t for _, _, fs, _ in built for _, t in fs})
+    fobs = dict(zip(texts, lib.run_go(["parse " + hx(t) for t in texts])))
+    stats = dict(cases=len(built), positions_checked=0, exact_checked=0, untriggered=0, by_class={}, unparsable_files=0, labels=len(SEM_CASES))
+    viol = 0
+
+    def bad(what, label, fs, extra):
+        nonlocal viol
+        viol += 1
+        if viol <= 4:
+            res.violation("%s [case %s]" % (what, label), dict(kind="semantic-position", label=label, files=[[n, t] for n, t in fs], **extra))
+
+    for (label, cls, fs, marker), line, o in zip(built, plines, pout):
+        try:
+            j = json.loads(o)
+        except ValueError:
+            bad("harness did not answer: %s" % o[:200], label, fs, dict(case=line))
+            continue
+        msgs = [l[5:] for l in j.get("loads", []) if l.startswith("err: ")]
+        for r in j.get("runs", []):
+            msgs += r.get("errors", [])
+        names = {n for n, _ in fs}
+        stmts = {}
+        for n, t in fs:
+            f = parse_forest(fobs[t])
+            if f is None:
+                stats["unparsable_files"] += 1
+            stmts[n] = f
+        triggered = False
+        for msg in msgs:
+            mcls, detail = classify(msg)
+            stats["by_class"][mcls] = stats["by_class"].get(mcls, 0) + 1
+            if mcls == cls or (cls == "other"):
+                triggered = True
+            for m in SEM_POS.finditer(msg):
+                fn, ln, cl = m.group(1), int(m.group(2)), int(m.group(3))
+                stats["positions_checked"] += 1
+                if fn not in names:
+                    bad("error names %s:%d:%d, a file that was not loaded: %s" % (fn, ln, cl, msg[:200]), label, fs, dict(message=msg))
+                    continue
+                if stmts[fn] is None:
+                    continue
+                here = [k for k, l2, c2 in stmts[fn] if (l2, c2) == (ln, cl)]
+                if not here:
+                    bad("error position %s:%d:%d is not the start of any statement of that file: %s" % (fn, ln, cl, msg[:200]),
+                        label, fs, dict(message=msg))
+                    continue
+                kw = here[0]
+                # (c) the right kind of statement for the class of the message
+                if mcls == "unknown-field":
+                    parent_kw, field = detail
+                    if kw != field:
+                        if kw == parent_kw and field in KIND_FIELDS:
+                            res.known("builder.kind-field-reported-at-parent", "%r -> %s" % (fs[0][1][:80], msg[:120]))
+                            continue
+                        bad("'unknown %s field: %s' is reported at a %r statement (%s:%d:%d), not at the unknown substatement"
+                            % (parent_kw, field, kw, fn, ln, cl), label, fs, dict(message=msg))
+                        continue
+                elif mcls == "unknown-statement":
+                    if kw != detail:
+                        bad("'unknown statement: %s' is reported at a %r statement" % (detail, kw), label, fs, dict(message=msg))
+                        continue
+                elif mcls == "missing-required":
+                    if kw != detail[0]:
+                        bad("'missing required %s field: %s' is reported at a %r statement (%s:%d:%d), not at the %s that lacks it"
+                            % (detail[0], detail[1], kw, fn, ln, cl, detail[0]), label, fs, dict(message=msg))
+                        continue
+                elif mcls in CLASS_KEYWORDS:
+                    if kw not in CLASS_KEYWORDS[mcls]:
+                        bad("a %s error is reported at a %r statement (%s:%d:%d): %s" % (mcls, kw, fn, ln, cl, msg[:160]), label, fs, dict(message=msg))
+                        continue
+                # (d) the single injected fault: the position is that of the marked statement
+                if marker and mcls == cls and cls in EXACT_CLASSES:
+                    stats["exact_checked"] += 1
+                    if (fn, ln, cl) != marker:
+                        bad("the %s error names %s:%d:%d but the faulty statement stands at %s:%d:%d: %s"
+                            % (mcls, fn, ln, cl, marker[0], marker[1], marker[2], msg[:160]), label, fs, dict(message=msg, expected="%s:%d:%d" % marker))
+        if not triggered:
+            stats["untriggered"] += 1
+    stats["violations"] = viol
+    return stats
 
 
 POS = re.compile(r",(-?\d+),(-?\d+);")
@@ -195,6 +548,7 @@ def run(res, tier, seed, proof):
             nerrpos += sum(1 for p in ps if ":" in p)
             key = "%d-errors%s" % (len(ps), "+toomany" if "toomany" in ps else "")
             errclasses[key] = errclasses.get(key, 0) + 1
+    sem = run_semantic(res, tier, random.Random(seed + 1))
     distinct = len(set(cases))
     nontriv = len({c for c, g in zip(cases, go) if (g.startswith("ok (") or (g.startswith("err") and ":" in g))})
     pick = [i for i, k in enumerate(kinds) if k in ("well-formed", "fault:bad-escape", "fault:extra-close")]
@@ -204,8 +558,14 @@ def run(res, tier, seed, proof):
                     "arguments with multi-byte runes, single/double-quoted and multi-line strings, '+' concatenations) rendered with "
                     "random gaps drawn from blanks, tabs, LF, CR LF, // and /* */ comments (incl. multi-line and comment ending at end "
                     "of line); single-fault mutants of these for %d fault kinds at random places; error-budget texts; fixed corpus. "
-                    "non-trivial = at least one statement position or one printed error position compared" % (4 if tier == "quick" else 5, len(FAULTS)),
-               mismatches=mism, model_out_of_fuel=oof, statement_positions_compared=npos, error_positions_compared=nerrpos,
+                    "non-trivial = at least one statement position or one printed error position compared.  Second family (oracle on the "
+                    "implementation): %d single-semantic-fault module sets x layout-noise variants (unknown substatement, missing mandatory "
+                    "substatement, unknown type / prefix, typedef cycle, fraction-digits, unknown grouping, grouping cycle, bad range / length, "
+                    "enum / bit, missing augment target, duplicates, invalid config / max-elements / min-elements / ordered-by, identities, "
+                    "missing import / include; one or several files); every file:line:col anywhere in a Modules.Parse or Process error must be "
+                    "a statement start of a loaded file, of the right kind for the message, and for the classes the property lists exactly "
+                    "the marked faulty statement" % (4 if tier == "quick" else 5, len(FAULTS), len(SEM_CASES)),
+               mismatches=mism, model_out_of_fuel=oof, semantic_error_positions=sem, statement_positions_compared=npos, error_positions_compared=nerrpos,
                distribution=dict(kind_by_outcome=dist, error_lists=errclasses),
                samples=[cases[i] for i in sample_idx], sample_observations=[go[i] for i in sample_idx])
     return cov, ["UTF-8 decoding (utf8.DecodeRuneInString; invalid byte => U+FFFD of width 1) is done by the harness as Go does it and "
@@ -215,6 +575,17 @@ def run(res, tier, seed, proof):
 
 
 def replay(rep, res):
+    if rep.get("kind") == "semantic-position":
+        fs = [(n, t) for n, t in rep["files"]]
+        tmp = tempfile.mkdtemp(prefix="c16cwd")
+        o = lib.run_go([sem_case_line(fs)], cwd=tmp)[0]
+        print("files:")
+        for n, t in fs:
+            print("  %s: %r" % (n, t))
+            print("   statements:", parse_forest(lib.run_go(["parse " + hx(t)])[0]))
+        print("impl :", o[:1500])
+        print("was  :", rep.get("what"))
+        return 1
     c = rep["case"]
     go, ml = lib.run_go([c])[0], lib.run_ml([c])[0]
     print("case :", c, "\nimpl :", go, "\nmodel:", ml)
